@@ -213,6 +213,60 @@ fn want_two_infix(x: &[u8], star_right: bool) -> Option<Tr> {
 }
 
 /// @harness props=C09:Q,C20:T n=3 err=Cheap timeout=900
+/// @shape atom.pratt(( prefix(2,'-'), infix(left(1),'+') ))   vs the textbook reading of every input of length <= 3
+/// @symbolic input: 3 arbitrary bytes (operator symbols are the bytes 0..=3, every other byte is an atom)
+/// @aims the main loop with a two-operator tuple table: prefix operand, atom, infix while power >= min_power; a missing operand leaves the operator unconsumed (=> trailing input => rejected)
+pub fn c09_pre_in_body<S: Src>(s: &mut S) {
+    let inp = Inp::<3>::any(s);
+    let x = inp.get();
+    let p = atom().pratt((
+        prefix(2, just::<u8, I, X>(NEG), |o, r, _| pre(o, r)),
+        infix(left(1), just::<u8, I, X>(PLUS), |l, o, r, _| bin(l, o, r)),
+    ));
+    against!(p, want_prefix_power(x, true), x);
+    #[cfg(not(kani))]
+    {
+        let tbl = [Op { sym: NEG, kind: Kind::Pre, p: 2 }, Op { sym: PLUS, kind: Kind::InL, p: 1 }];
+        let rec = match bp_expr(x, 0, 0, &tbl, 6) {
+            Some((t, p)) if p == x.len() => Some(t),
+            _ => None,
+        };
+        check!("C09:pattern-oracle-equals-recursive-evaluator", same(&rec, &want_prefix_power(x, true)));
+    }
+}
+
+/// @harness props=C09:Q,C20:T n=3 err=Cheap timeout=900
+/// @shape atom.pratt(( infix(left(1),'+'), postfix(3,'!') ))   vs the textbook reading of every input of length <= 3
+/// @symbolic input: 3 arbitrary bytes
+/// @aims postfix operators in the main loop (applied iff their power >= min_power), mixed with an infix operator
+pub fn c09_in_post_body<S: Src>(s: &mut S) {
+    let inp = Inp::<3>::any(s);
+    let x = inp.get();
+    let p = atom().pratt((
+        infix(left(1), just::<u8, I, X>(PLUS), |l, o, r, _| bin(l, o, r)),
+        postfix(3, just::<u8, I, X>(BANG), |l, o, _| post(l, o)),
+    ));
+    // '-' (byte 2) is neither an operator of this table nor an atom
+    let mut has_neg = false;
+    let mut i = 0;
+    while i < x.len() {
+        has_neg |= x[i] == NEG;
+        i += 1;
+    }
+    let want = if has_neg { None } else { want_mixed3(x) };
+    against!(p, want, x);
+    #[cfg(not(kani))]
+    {
+        let tbl = [Op { sym: PLUS, kind: Kind::InL, p: 1 }, Op { sym: BANG, kind: Kind::Post, p: 3 }];
+        let rec = match bp_expr(x, 0, 0, &tbl, 6) {
+            Some((t, p)) if p == x.len() => Some(t),
+            _ => None,
+        };
+        check!("C09:pattern-oracle-equals-recursive-evaluator", same(&rec, &want));
+    }
+}
+
+/// @harness props=C09:T,C20:T n=3 err=Cheap timeout=2400
 /// @shape atom.pratt(( prefix(2,'-'), infix(left(1),'+'), postfix(3,'!') ))   vs the textbook reading of every input of length <= 3
 /// @symbolic input: 3 arbitrary bytes (operator symbols are the bytes 0..=3, every other byte is an atom)
 /// @aims the main loop (prefix, atom, then postfix/infix while power >= min_power), tuple tables, postfix vs prefix power
@@ -242,7 +296,7 @@ pub fn c09_mixed3_body<S: Src>(s: &mut S) {
     let _ = out;
 }
 
-/// @harness props=C09:Q,C20:T n=4 err=Cheap timeout=1200
+/// @harness props=C09:T,C20:T n=4 err=Cheap timeout=3000
 /// @shape atom.pratt(( prefix(P,'-'), infix(left(1),'+') )) with P in {0, 2} (two concrete tables, chosen symbolically)   vs textbook reading of every input of length <= 4
 /// @symbolic input: 4 arbitrary bytes; which table
 /// @aims a prefix operator captures `a+b` iff '+' binds at least as tightly as the prefix: -a+b = (-a)+b for P=2, -(a+b) for P=0
@@ -509,6 +563,8 @@ pub fn c09_unary_step_body<S: Src>(s: &mut S) {
 }
 
 crate::harnesses! {
+    c09_pre_in [5] = c09_pre_in_body;
+    c09_in_post [5] = c09_in_post_body;
     c09_mixed3 [5] = c09_mixed3_body;
     c09_prefix_power [6] = c09_prefix_power_body;
     c09_two_infix [7] = c09_two_infix_body;
